@@ -306,9 +306,9 @@ def corpus_panics(chk, n):
     for part_j, part_m in zip(common.chunks(jobs, 4000), common.chunks(meta, 4000)):
         for res, (lang, src, selfrefs) in zip(common.run_driver("gen", part_j), part_m):
             chk.judged(("corpus", lang, hash(src)))
-            if res["status"] in ("panic", "abort"):
+            if res["status"] in ("panic", "abort", "hang"):
                 bad += 1
-                site = re.sub(r"^.*/(core|cli|lib)/", r"\1/", (res.get("panic") or "?").split(": ")[0]) if res["status"] == "panic" else "abort"
+                site = re.sub(r"^.*/(core|cli|lib)/", r"\1/", (res.get("panic") or "?").split(": ")[0]) if res["status"] == "panic" else res["status"]
                 chk.mismatch(f"C07/corpus/{lang if 'language/' in site else 'anylang'}/{res['status']}@{site}",
                              f"generator {res['status']} on a supported program ({lang}): {res.get('panic', '')[:200]}",
                              {"src": src, "lang": lang}, "no panic", res.get("panic"))
@@ -341,15 +341,60 @@ def odd_types(chk):
     bad = 0
     for v, r in zip(vs, common.run_driver("gen", jobs)):
         chk.judged(("oddtype", v["ty"], v["pos"], v["lang"]))
-        if r["status"] in ("panic", "abort"):
+        if r["status"] in ("panic", "abort", "hang"):
             bad += 1
-            site = re.sub(r"^.*/(core|cli|lib)/", r"\1/", (r.get("panic") or "?").split(": ")[0]) if r["status"] == "panic" else "abort"
+            site = re.sub(r"^.*/(core|cli|lib)/", r"\1/", (r.get("panic") or "?").split(": ")[0]) if r["status"] == "panic" else r["status"]
             cls = re.sub(r"\b(u8|u32|String|bool|char|User|T)\b", "_", v["ty"])
             chk.mismatch(f"C07/oddtype/{v['lang']}/{v['pos']}/{cls}/{r['status']}@{site}",
                          f"generator {r['status']} for `{v['ty']}` as {v['pos']} ({v['lang']}): {str(r.get('panic'))[:200]}",
                          {"vector": v, "src": jobs[0]["files"][0]["src"]}, "output or a reported error", r.get("panic"))
     chk.extra["odd_type_vectors"] = len(vs)
     chk.extra["odd_type_panics"] = bad
+
+
+def names_source(kind, names):
+    names = sorted(names)
+    if kind == "wire_tagged_variant":
+        body = "".join(f'    #[serde(rename = "{n}")]\n    V{i}(u32),\n' for i, n in enumerate(names))
+        return f'#[typeshare]\n#[serde(tag = "t", content = "c")]\npub enum Edge {{\n{body}    Last {{ a: u32 }},\n}}\n'
+    if kind == "wire_unit_variant":
+        body = "".join(f'    #[serde(rename = "{n}")]\n    V{i},\n' for i, n in enumerate(names))
+        return f"#[typeshare]\npub enum Edge {{\n{body}}}\n"
+    if kind == "wire_field":
+        body = "".join(f'    #[serde(rename = "{n}")]\n    pub f{i}: u32,\n' for i, n in enumerate(names))
+        return f"#[typeshare]\npub struct Edge {{\n{body}}}\n"
+    if kind == "wire_vfield":
+        body = "".join(f'        #[serde(rename = "{n}")]\n        f{i}: u32,\n' for i, n in enumerate(names))
+        return f'#[typeshare]\n#[serde(tag = "t", content = "c")]\npub enum Edge {{\n    Sv {{\n{body}    }},\n    U,\n}}\n'
+    if kind == "ident_field":
+        return "#[typeshare]\npub struct Edge {\n" + "".join(f"    pub {n}: u32,\n" for n in names) + "}\n"
+    if kind == "ident_variant":
+        return '#[typeshare]\n#[serde(tag = "t", content = "c")]\npub enum Edge {\n' + "".join(f"    {n}(u32),\n" for n in names) + "    Sv { a: u32 },\n}\n"
+    if kind == "ident_type":
+        return "".join(f"#[typeshare]\npub struct {n} {{ pub a: u32 }}\n" for n in names) + "#[typeshare]\npub struct Edge {\n" + "".join(f"    pub f{i}: {n},\n" for i, n in enumerate(names)) + "}\n"
+    raise ToolError(f"no rendering for kind {kind}")
+
+
+def colliding_names(chk):
+    """(d) MC_C07_names: sets of spellings that collide under a backend's normalisation x place x language through the library."""
+    res = common.run_tlc("MC_C07_names", cfg="MC_C07_names_thorough" if chk.tier == "thorough" else "MC_C07_names_quick", workers=2, timeout=300)
+    chk.add_tlc("MC_C07_names", res)
+    vs = res.replays
+    if not vs:
+        raise ToolError("MC_C07_names produced no vectors")
+    jobs = [{"id": i, "lang": v["lang"], "files": [{"src": names_source(v["kind"], v["names"])}],
+             "cfg": {"package": "com.x" if v["lang"] in ("kotlin", "scala") else "p" if v["lang"] == "go" else ""}} for i, v in enumerate(vs)]
+    bad = 0
+    for v, j, r in zip(vs, jobs, common.run_driver("gen", jobs, job_timeout=6)):
+        chk.judged(("names", v["kind"], tuple(sorted(v["names"])), v["lang"]))
+        if r["status"] in ("panic", "abort", "hang"):
+            bad += 1
+            site = re.sub(r"^.*/(core|cli|lib)/", r"\1/", (r.get("panic") or "?").split(": ")[0]) if r["status"] == "panic" else r["status"]
+            chk.mismatch(f"C07/names/{v['lang']}/{v['kind']}/{len(v['names'])}-way/{r['status']}@{site}",
+                         f"generator {r['status']} for colliding names {sorted(v['names'])} as {v['kind']} ({v['lang']}): {str(r.get('panic'))[:200]}",
+                         {"vector": v, "src": j["files"][0]["src"]}, "output or a reported error", r.get("panic"))
+    chk.extra["name_collision_vectors"] = len(vs)
+    chk.extra["name_collision_failures"] = bad
 
 
 def run(chk):
@@ -395,6 +440,7 @@ def run(chk):
     chk.extra["runs_trace_validated"] = len(subset)
     corpus_panics(chk, 3000 if thorough else 300)
     odd_types(chk)
+    colliding_names(chk)
 
 
 def replay(chk, rec):
@@ -411,5 +457,5 @@ def replay(chk, rec):
     elif "src" in c:
         res = common.run_driver("gen", [{"id": 0, "lang": c["lang"], "files": [{"src": c["src"]}],
                                          "cfg": {"package": "com.x" if c["lang"] in ("kotlin", "scala") else "p" if c["lang"] == "go" else ""}}])[0]
-        if res["status"] in ("panic", "abort"):
+        if res["status"] in ("panic", "abort", "hang"):
             chk.mismatch(rec["signature"], rec["what"], c, "no panic", res.get("panic"))
